@@ -5,7 +5,13 @@ impl cbor_event::se::Serialize for HeaderBody {
         &self,
         serializer: &'se mut Serializer<W>,
     ) -> cbor_event::Result<&'se mut Serializer<W>> {
-        serializer.write_array(cbor_event::Len::Len(15))?;
+        // Shelley..Alonzo: two VRF certs, operational cert and protocol version inlined (15 items);
+        // Babbage and later: a single VRF result, operational cert and protocol version as nested arrays (10 items)
+        let single_vrf_result = match &self.leader_cert {
+            HeaderLeaderCertEnum::NonceAndLeader(_, _) => false,
+            HeaderLeaderCertEnum::VrfResult(_) => true,
+        };
+        serializer.write_array(cbor_event::Len::Len(if single_vrf_result { 10 } else { 15 }))?;
         self.block_number.serialize(serializer)?;
         self.slot.serialize(serializer)?;
         match &self.prev_hash {
@@ -25,10 +31,15 @@ impl cbor_event::se::Serialize for HeaderBody {
         }
         self.block_body_size.serialize(serializer)?;
         self.block_body_hash.serialize(serializer)?;
-        self.operational_cert
-            .serialize_as_embedded_group(serializer)?;
-        self.protocol_version
-            .serialize_as_embedded_group(serializer)?;
+        if single_vrf_result {
+            self.operational_cert.serialize(serializer)?;
+            self.protocol_version.serialize(serializer)?;
+        } else {
+            self.operational_cert
+                .serialize_as_embedded_group(serializer)?;
+            self.protocol_version
+                .serialize_as_embedded_group(serializer)?;
+        }
         Ok(serializer)
     }
 }
